@@ -532,7 +532,8 @@ def d7_selection(chk, repo):
     for st in c.stmts():
         if isinstance(st, ast.Assign) and isinstance(st.targets[0], ast.Name) and not (isinstance(st.value, ast.Constant) and st.value.value is None):
             t_ = c.term(st.value, at=st)
-            if c.eq(t_, c.spec("self.field")):
+            if c.eq(t_, c.spec("self.field")) and any(isinstance(p_, ast.If) for p_, f_ in c.cfg.enclosing(st)):
+                # (a selection happens in a branch; an unconditional `field = self.field` at the top is a local alias)
                 sel.setdefault("whole", []).append(full_term(c, st))
     if "whole" in sel and len(sel["whole"]) >= 2:
         got = c.ev._bool("or", sel["whole"])
